@@ -895,6 +895,11 @@ pub fn depths(s: &S, v: &V) -> (u32, u32) {
             let lo = if !items.is_empty() && composite(e) { 1 + inner.0 } else { 0 };
             (lo, 1 + inner.1)
         },
+        (S::Seq(_, e, _, _), V::Rep(n, ev)) => {
+            let inner = if *n > 0 { depths(e, ev) } else { (0, 0) };
+            let lo = if *n > 0 && composite(e) { 1 + inner.0 } else { 0 };
+            (lo, 1 + inner.1)
+        },
         (S::Seq(..), _) | (S::Str, _) | (S::Bytes, _) | (S::Bits(..), _) => (0, 1),
         (S::Set(_), _) => (0, 1),
         (S::Map(k, val), V::Map(items)) => {
